@@ -17,7 +17,7 @@ HDLC_CONST = 16 * 1024
 P1_CONST = 48 * 1024
 RULE = (
     "run = (reader, pattern, chunk size): HDLC patterns {all flags, flag + short junk, flag + lone escape, valid frames back to back (two flags / one shared flag), never-ending frame, "
-    "frame longer than its length field followed by endless flags, random bytes} under three configurations; P1 patterns {'/' ident lines without '!', '/' + bytes without LF, '////..' and '/abc/abc..' without LF, "
+    "frame longer than its length field followed by endless flags, random bytes} under three configurations; P1 patterns {well-formed readouts of 40 KiB, 60 KiB, 90 KiB, ... (each 1.5 x the previous) followed by a never-ending readout, '/' ident lines without '!', '/' + bytes without LF, '////..' and '/abc/abc..' without LF, "
     "ident line + endless data lines, ident line + endless bytes without LF, ever-changing '/' lines, valid readouts back to back, random ASCII, random bytes, text without '/' and LF}; chunk sizes {1 (first 128 KiB), 64, 4096, 65536} and delimiter-aligned calls (ending right after every LF / 7th LF for P1, every flag / 7th flag for HDLC); stream length 1 MiB (quick) / 16 MiB (thorough). "
     f"oracle: deep size after read() <= {HDLC_CONST} (HDLC) / {P1_CONST} (P1) + 3 x chunk bytes at every sample, and max over the second half <= max(1.25 x max over the first half + chunk + 1 KiB, a quarter of the constant + chunk) (jittered sampling and a floor, so that a bounded saw-tooth or a few spiky long messages are not mistaken for growth). "
     "evaluations = read() calls made; distinct non-trivial = distinct (reader, configuration, pattern, chunk size) runs with >= 16 size samples."
@@ -31,7 +31,7 @@ WATCHDOG_S = {"quick": 900, "thorough": 7200}
 HDLC_PATTERNS = ("all_flags", "flag_short_junk", "flag_lone_escape", "valid_frames", "never_ending_frame", "random_bytes", "overlong_frame_then_flags",
                  "single_flag_between_frames", "escaped_pairs_forever", "escape_fill_forever", "valid_frames_with_segmentation_bit", "tiny_length_header_then_frames")
 P1_PATTERNS = ("ident_lines_without_end", "slash_without_lf", "ident_then_endless_data", "valid_readouts", "random_ascii", "random_bytes", "text_without_slash_and_lf",
-               "slashes_without_lf", "slash_words_without_lf", "ident_then_no_lf", "varying_slash_lines")
+               "slashes_without_lf", "slash_words_without_lf", "ident_then_no_lf", "varying_slash_lines", "growing_valid_readouts_then_endless_data")
 CHUNKS = (1, 64, 4096, 65536, "delim1", "delim7")  # delimN: a call ends right after every N-th LF (P1) / flag (HDLC)
 
 
@@ -116,6 +116,24 @@ def make_stream(rng, reader: str, cfg, pattern: str, total: int) -> bytes:
         while len(out) < total:
             k += 1
             out += b"/%d-%s\r\n" % (k, bytes(rng.randrange(0x61, 0x7B) for _ in range(rng.randint(0, 20))))
+        return bytes(out[:total])
+    if pattern == "growing_valid_readouts_then_endless_data":
+        # a history of well-formed, correctly check-summed readouts far beyond the usual size, each half as large again as the one before
+        # (whatever a reader learns from them must not lift its bound), then a readout that never ends
+        out = bytearray()
+        size = 40 * 1024
+        while len(out) + size < total * 0.9:
+            ident = p1_ref.strict_ident(rng)[0]
+            lines = []
+            n = 0
+            while n < size:
+                ln = p1_gen.data_line(rng)
+                lines.append(ln)
+                n += len(ln) + 2
+            out += p1_ref.build_readout(ident, lines)
+            size = int(size * 1.5)
+        unit = b"".join(p1_gen.data_line(rng) + b"\r\n" for _ in range(400))
+        out += p1_ref.strict_ident(rng)[0] + b"\r\n" + unit * ((total - len(out)) // len(unit) + 1)
         return bytes(out[:total])
     if pattern == "ident_then_endless_data":
         unit = b"".join(p1_gen.data_line(rng) + b"\r\n" for _ in range(400))
